@@ -215,10 +215,10 @@ private theorem tryResp_sim (full : Bytes)
       | none => exact hresp
     | resp r => exact hresp
 
-private theorem withFlow_sim (stored : FlowKey) (isClient : Bool) (f : TcpFlow) (s : Seg) :
-    Sim (httpWithFlow H stored isClient f s) (httpWithFlow (H.pure g₀) stored isClient f s) := by
+private theorem body_sim (stored : FlowKey) (isClient : Bool) (f : TcpFlow) (s : Seg) :
+    Sim (httpBody H stored isClient f s) (httpBody (H.pure g₀) stored isClient f s) := by
   have hmax : (H.pure g₀).maxHead = H.maxHead := rfl
-  unfold httpWithFlow
+  unfold httpBody
   rw [hmax]
   by_cases he : s.payload.isEmpty
   · rw [if_pos he, if_pos he]; exact .ret _
@@ -240,8 +240,6 @@ private theorem withFlow_sim (stored : FlowKey) (isClient : Bool) (f : TcpFlow) 
       · rw [if_pos hsv, if_pos hsv]
         by_cases hp : (!f.serverParsed) = true
         · rw [if_pos hp, if_pos hp]
-          generalize (if isClient = true then f.clientData
-            else f.serverData ++ [({ seq := s.seq, data := s.payload } : TcpData)]) = ds
           split
           · exact .set _ _ _ _ (finish_sim _ _ _ _)
           · refine .set _ _ _ _ (tryResp_sim H hri g₀ _ _ _ (fun q => ?_))
@@ -250,6 +248,13 @@ private theorem withFlow_sim (stored : FlowKey) (isClient : Bool) (f : TcpFlow) 
             | none => exact finish_sim _ _ _ _
         · rw [if_neg hp, if_neg hp]; exact finish_sim _ _ _ _
       · rw [if_neg hsv, if_neg hsv]; exact finish_sim _ _ _ _
+
+private theorem withFlow_sim (stored : FlowKey) (isClient : Bool) (f : TcpFlow) (s : Seg) :
+    Sim (httpWithFlow H stored isClient f s) (httpWithFlow (H.pure g₀) stored isClient f s) := by
+  unfold httpWithFlow
+  split
+  · exact .set _ _ _ _ (body_sim H hri g₀ _ _ _ _)
+  · exact body_sim H hri g₀ _ _ _ _
 
 theorem httpProg_sim (s : Seg) : Sim (httpProg H s) (httpProg (H.pure g₀) s) := by
   have httl : (H.pure g₀).ttlMs = H.ttlMs := rfl
